@@ -9,7 +9,10 @@ package actionlint
 //@ func (*RuleJobNeeds).VisitWorkflowPost
 //@   props C18
 //@   anchor
+//@   loop "range rule.nodes":
+//@     complete
 //@   loop "range node.needs":
+//@     complete
 //@     body_calls (*RuleBase).Errorf iff !rule.nodes.has(dep)
 //@     at_call (*RuleBase).Errorf: pos == node.pos
 
@@ -29,7 +32,7 @@ package actionlint
 //@     invariant forall n: *jobNode :: n.status == 1 && n != v ==> old(n.status) == 1
 // the search is complete: when no cycle is reported, every job has been visited (none is left New)
 //@ func detectFirstCycle
-//@   props C18
+//@   props C18 C09
 //@   anchor
 //@   ensures result != nil ==> result.from != nil && result.to != nil && result.to.status == 1
 //@   ensures result != nil ==> (exists j :: 0 <= j && j < len(result.from.resolved) && result.from.resolved[j] == result.to)
